@@ -19,6 +19,11 @@ type Xf struct {
 
 var ident = Xf{Scale: 0.5}
 
+// farFineXf: a small figure far from the origin on a fine dyadic grid (lattice
+// step 2^-12 at about 2^19): every ordinate is exact and so is every
+// difference, but products of absolute ordinates need ~64 bits.
+var farFineXf = Xf{Scale: 1.0 / 8192, Tx: 524288 + 5.0/512, Ty: 524288 + 3.0/512}
+
 func symApply(s int, x, y int64) (int64, int64) {
 	switch s {
 	case 1:
@@ -175,7 +180,10 @@ func buildGeom(g *rt.G, opts *geometry.IndexOptions) (geometry.Geometry, error) 
 		}
 		return geometry.Point{X: g.P[0][0], Y: g.P[0][1]}, nil
 	case "line":
-		return geometry.NewLine(g2(g.P), opts), nil
+		pts := g2(g.P)
+		l := geometry.NewLine(pts, opts)
+		scribble(pts)
+		return l, nil
 	case "rect":
 		if len(g.P) != 2 {
 			return nil, fmt.Errorf("rect needs min,max")
@@ -186,7 +194,13 @@ func buildGeom(g *rt.G, opts *geometry.IndexOptions) (geometry.Geometry, error) 
 		for _, h := range g.H {
 			holes = append(holes, g2(h))
 		}
-		return geometry.NewPoly(g2(g.P), holes, opts), nil
+		ext := g2(g.P)
+		p := geometry.NewPoly(ext, holes, opts)
+		scribble(ext)
+		for _, h := range holes {
+			scribble(h)
+		}
+		return p, nil
 	}
 	return nil, fmt.Errorf("unknown shape kind %q", g.K)
 }
@@ -197,7 +211,10 @@ func geomOf(s *exact.Shape, t Xf, opts *geometry.IndexOptions) geometry.Geometry
 	case exact.KPoint:
 		return t.pt(s.Pt)
 	case exact.KLine:
-		return geometry.NewLine(t.pts(s.Line), opts)
+		pts := t.pts(s.Line)
+		l := geometry.NewLine(pts, opts)
+		scribble(pts)
+		return l
 	case exact.KRect:
 		return t.rect(s)
 	default:
@@ -205,7 +222,46 @@ func geomOf(s *exact.Shape, t Xf, opts *geometry.IndexOptions) geometry.Geometry
 		for _, h := range s.Holes {
 			holes = append(holes, t.pts(h))
 		}
-		return geometry.NewPoly(t.pts(s.Ext), holes, opts)
+		ext := t.pts(s.Ext)
+		p := geometry.NewPoly(ext, holes, opts)
+		// the constructors take their own copy of the positions: what the
+		// caller does with its slices afterwards must not reach the object
+		scribble(ext)
+		for _, h := range holes {
+			scribble(h)
+		}
+		return p
+	}
+}
+
+// newPolyScribbled / newLineScribbled build from a private copy of the
+// positions and overwrite that copy afterwards.
+func newPolyScribbled(pts []geometry.Point, holes [][]geometry.Point, opts *geometry.IndexOptions) *geometry.Poly {
+	cp := append([]geometry.Point(nil), pts...)
+	var hs [][]geometry.Point
+	for _, h := range holes {
+		hs = append(hs, append([]geometry.Point(nil), h...))
+	}
+	p := geometry.NewPoly(cp, hs, opts)
+	scribble(cp)
+	for _, h := range hs {
+		scribble(h)
+	}
+	return p
+}
+
+func newLineScribbled(pts []geometry.Point, opts *geometry.IndexOptions) *geometry.Line {
+	cp := append([]geometry.Point(nil), pts...)
+	l := geometry.NewLine(cp, opts)
+	scribble(cp)
+	return l
+}
+
+// scribble overwrites a slice that has been handed to a constructor (the
+// caller re-using its buffer for the next shape).
+func scribble(ps []geometry.Point) {
+	for i := range ps {
+		ps[i] = geometry.Point{X: 7e7 + float64(i), Y: -3e7 - float64(2*i)}
 	}
 }
 
